@@ -24,8 +24,8 @@ for it in range(R.n(40, 1500)):
     f = R.guard('construct', c, mk)
     if f is None:
         continue
-    tol = 1e-9 * df
-    R.check('axes/increasing-uniform', c, f.fs.shape == (n,) and (n == 1 or (np.all(np.diff(f.fs) > 0) and np.allclose(np.diff(f.fs), df, rtol=1e-6))), None)
+    tol = 1e-9 * df + 4 * np.spacing(abs(fch1) + n * df)
+    R.check('axes/increasing-uniform', c, f.fs.shape == (n,) and (n == 1 or (np.all(np.diff(f.fs) > 0) and np.allclose(np.diff(f.fs), df, rtol=0, atol=1e-9 * df + 4 * np.spacing(abs(f.fs[-1]))))), None)
     R.check('axes/endpoints', c, abs(f.fs[0] - f.fmin) <= tol and abs(f.fs[-1] - f.fmax) <= tol and abs((f.fmax if not asc else f.fmin) - fch1) <= tol, [f.fmin, f.fmax])
     R.check('axes/ts', c, f.ts.shape == (T,) and np.allclose(f.ts, np.arange(T) * dt, rtol=1e-12, atol=0), None)
     idx = np.arange(n)
@@ -33,10 +33,10 @@ for it in range(R.n(40, 1500)):
     R.check('roundtrip/every-channel', c, bool(np.array_equal(back, idx)), None if np.array_equal(back, idx) else int(np.argmax(back != idx)))
     x = f.fmin + rng.uniform(-0.49, n - 0.51) * df
     k = int(f.get_index(x))
-    R.check('get_index/nearest', dict(c, x=x), abs(x - (f.fmin + k * df)) <= df / 2 * (1 + 1e-9), k)
+    R.check('get_index/nearest', dict(c, x=x), abs(x - (f.fmin + k * df)) <= df / 2 * (1 + 1e-9) + 4 * np.spacing(abs(x)), k)
     R.check('derived', c, abs(f.fmid - (f.fmin + f.fmax) / 2) <= tol and abs(f.t_stop - (f.t_start + T * dt)) <= 1e-9 and len(f.ts_ext) == T + 1
             and abs(f.ts_ext[-1] - T * dt) <= 1e-9 * T * dt and abs(f.unit_drift_rate - df / dt) <= 1e-12 * df / dt, None)
     # opposite orientation, same band
     g = stg.Frame(fchans=n, tchans=T, df=df, dt=dt, fch1=(f.fmin if asc else f.fmax) if False else (f.fmax if asc else f.fmin), ascending=not asc, t_start=0)
-    R.check('orientation/same-axes', c, np.allclose(f.fs, g.fs, rtol=0, atol=1e-6 * df + 1e-15 * abs(fch1) * 4) and np.array_equal(f.ts, g.ts), float(np.max(np.abs(f.fs - g.fs))))
+    R.check('orientation/same-axes', c, np.allclose(f.fs, g.fs, rtol=0, atol=1e-9 * df + 8 * np.spacing(abs(fch1) + n * df)) and np.array_equal(f.ts, g.ts), float(np.max(np.abs(f.fs - g.fs))))
 R.finish()
